@@ -27,6 +27,10 @@ def leftJoinOn [DecidableEq κ] (kl : α → κ) (kr : β → κ) (L : List α) 
     let m := R.filter fun b => kl a == kr b
     if m.isEmpty then [(a, none)] else m.map fun b => (a, some b)
 
+/-- `Values::schema`: the single column of a literal value list is declared unique exactly when
+the set of its values has as many elements as the list -/
+def valuesUnique [DecidableEq α] (vals : List α) : Bool := vals.eraseDups.length == vals.length
+
 /-- the bound `Join::size` declares when one side's join key is unique -/
 def joinSizeUnique (l r : Nat) : Nat := max l r
 
